@@ -10,3 +10,6 @@ import ParryModel.C18.Theorems
 #print axioms C18.acd_count_depth
 #print axioms C18.depth_bound
 #print axioms C18.acd_count
+#print axioms C18.segtest_iff_sat
+#print axioms C18.segtest_complete
+#print axioms C18.segtest_sound
